@@ -39,7 +39,8 @@ ASSUMPTIONS = [
     "M and P are given by polar angle from the beam (z) axis and azimuth in the detector plane, "
     "(sin t cos p, sin t sin p, cos t), the convention magnetism.rst gives for P; e1=(-sin p, cos p, 0), e2 = P x e1",
     "scale multiplies the channel sum and background is added once",
-    "channel weights inside the alphabet are 0, <= 1e-14 or >= 2e-8; the kernel's 'weight > 1e-8' cut-off is approached only from above",
+    "the kernel omits spin channels whose weight is <= 1e-8 (anchored mechanism, outside the statement): the weighted "
+    "intensity of such channels (weights 1e-14 in the alphabet) is added to the tolerance; all other weights are 0 or >= 2e-8",
     "q = 0 is checked for finiteness only (the kernel's q = 0 guard is outside the statement)",
     "DLL and pure-Python drivers only (no OpenCL/CUDA in the image)",
 ]
@@ -293,6 +294,7 @@ def run_case(case, ctx):
     nq = len(pts)
     ref = np.full(nq, np.nan)
     magn = np.zeros(nq)
+    cut = np.zeros(nq)       # weighted intensity of channels the kernel is allowed to omit (weight <= 1e-8)
     ncalls = 0
     opars = dict(base, scale=1.0, background=0.0)
     opars.update(disp)
@@ -318,6 +320,8 @@ def run_case(case, ctx):
             ncalls += 1
             tot += w * val
             magn[j] += abs(w * val)
+            if w <= 1e-8:
+                cut[j] += SCALE * abs(w * val)
         ref[j] = SCALE * tot + BACKGROUND
         magn[j] = SCALE * magn[j] + BACKGROUND
 
@@ -326,12 +330,14 @@ def run_case(case, ctx):
         if not np.isfinite(impl[j]):
             return r.fail("%s: result at q=0 is %r" % (desc, impl[j]), dict(fk, clause="q0-finite"), branches=br)
     keep = [j for j in range(nq) if j not in zero]
-    a, b, mg = impl[keep], ref[keep], magn[keep]
+    a, b, mg, ct = impl[keep], ref[keep], magn[keep], cut[keep]
     if not (np.all(np.isfinite(b)) and np.all(np.isfinite(mg))):
         if np.array_equal(np.isnan(a), np.isnan(b)):
             return r.inconc("oracle-nonfinite", trans=ncalls + 2)
     err = np.abs(a - b)
-    bad = ~(err <= 1e-11 * mg) & ~(np.isnan(a) & np.isnan(b))
+    bad = ~(err <= 1e-11 * mg + ct) & ~(np.isnan(a) & np.isnan(b))
+    if np.any(ct > 0):
+        br.append("channel-below-kernel-cutoff")
     if up_i != min(max(up_i, 0.0), 1.0) or up_f != min(max(up_f, 0.0), 1.0):
         br.append("clipped-fraction")
     if (up_theta, up_phi) not in ((90.0, 0.0), (0.0, 0.0)):
@@ -370,6 +376,7 @@ def finish(ctx, report):
     report.require("multi-magnetic-sld", 50, ">= 2 magnetic SLDs with different vectors")
     report.require("spin-flip-channel", 50, "spin-flip channels contribute")
     report.require("weight-just-above-threshold", 10, "channel weight just above the kernel's 1e-8 cut")
+    report.require("channel-below-kernel-cutoff", 5, "channel weight below the kernel's 1e-8 cut")
     report.require("size-dispersity", 20, "size dispersity")
     report.require("orientation-dispersity", 20, "orientation dispersity")
     report.require("all-slds-magnetic", 5, "every SLD magnetic (vector SLDs at full length)")
